@@ -98,11 +98,18 @@ Ltac n_cases :=
          | |- context [?x <? ?y] => destruct (N.ltb_spec x y)
          end.
 
+Lemma is_start_cases c : is_start c = true ->
+  c = 34 \/ c = 45 \/ 48 <= c <= 57 \/ c = 91 \/ c = 123 \/ c = 116 \/ c = 102 \/ c = 110.
+Proof. unfold is_start. rewrite !orb_true_iff, !N.eqb_eq, is_digit_iff. tauto. Qed.
+
+Lemma is_ws_false c : c <> 32 -> c <> 10 -> c <> 9 -> c <> 13 -> is_ws c = false.
+Proof. intros. unfold is_ws. rewrite !orb_false_iff, !N.eqb_neq. tauto. Qed.
+
 Lemma is_start_facts c : is_start c = true ->
   is_ws c = false /\ (c =? 93) = false /\ (c =? 125) = false /\ (c =? 44) = false /\ c < 128 /\ c <> 239.
 Proof.
-  unfold is_start, is_ws, is_digit, between. intros H.
-  n_cases; cbn in H; try discriminate; repeat split; try reflexivity; try lia.
+  intros H. apply is_start_cases in H.
+  repeat split; [apply is_ws_false; lia | apply N.eqb_neq; lia | apply N.eqb_neq; lia | apply N.eqb_neq; lia | lia | lia].
 Qed.
 
 Lemma skip_ws_start c r : is_ws c = false -> skip_ws (c :: r) = c :: r.
@@ -121,8 +128,10 @@ Lemma parse_value_num fuel depth c r :
   end.
 Proof.
   intros H. cbn [parse_value skip_ws].
+  assert (Hc : c = 45 \/ 48 <= c <= 57).
+  { rewrite orb_true_iff, N.eqb_eq, is_digit_iff in H. exact H. }
   assert (Hws : is_ws c = false /\ (c =? 110) = false /\ (c =? 116) = false /\ (c =? 102) = false).
-  { unfold is_ws, is_digit, between in *. n_cases; cbn in H; try discriminate; repeat split; try reflexivity; lia. }
+  { repeat split; [apply is_ws_false; lia | apply N.eqb_neq; lia | apply N.eqb_neq; lia | apply N.eqb_neq; lia]. }
   destruct Hws as (H1 & H2 & H3 & H4). rewrite H1, H2, H3, H4, H. reflexivity.
 Qed.
 
@@ -226,3 +235,279 @@ Proof.
   cbn [pairs_close] in H. apply andb_true_iff in H as [H H3]. apply andb_true_iff in H as [H1 H2].
   apply bytes_eqb_eq in H1. subst. cbn [map fst]. f_equal. apply IH. exact H3.
 Qed.
+
+(* ---------------------------------------------------------------------------------------------- *)
+(** * The main induction *)
+
+Section RoundTrip.
+  Variable ff : spec_float -> bytes.
+  Variable ft : Z -> bytes.
+
+  Definition fok (f : spec_float) : bool := float_text_ok (ff f) f.
+
+  Lemma fok_spec f : fok f = true ->
+    ascii (ff f) /\ exists f', parse_num_tok (ff f) = Some (PF64 f', []) /\ ulp_close f f' = true.
+  Proof.
+    unfold fok, float_text_ok. rewrite andb_true_iff. intros [Ha Hp]. split; [apply ascii_forallb; exact Ha|].
+    destruct (parse_num_tok (ff f)) as [[[n|z|f'] [|? ?]]|]; try discriminate.
+    exists f'. split; [reflexivity | exact Hp].
+  Qed.
+
+  Lemma print_int_head z : exists c r, print_int z = c :: r /\ ((c =? 45) || is_digit c = true).
+  Proof.
+    destruct z as [|p|p]; cbn [print_int].
+    - exists 48, []. split; reflexivity.
+    - destruct (print_u_shape (Npos p)) as (c & ds & Hp & Hc & _ & _); [lia|].
+      exists c, ds. split; [exact Hp|]. apply orb_true_iff. right. apply is_digit_iff. lia.
+    - exists 45, (print_u (Npos p)). split; reflexivity.
+  Qed.
+
+  Lemma num_head_start c : (c =? 45) || is_digit c = true -> is_start c = true.
+  Proof.
+    unfold is_start. rewrite !orb_true_iff. tauto.
+  Qed.
+
+  (* every printed value starts with a character that starts a JSON value *)
+  Lemma print_head pretty ind v : jrep fok v = true ->
+    exists c r, print_value ff ft pretty ind v = c :: r /\ is_start c = true.
+  Proof.
+    destruct v as [b|src|z|f|b|ns|kvs|vs|]; cbn [jrep]; intros H; try discriminate.
+    - eexists _, _. split; [reflexivity | reflexivity].
+    - destruct (print_int_head z) as (c & r & E & Hc). exists c, r. split; [exact E | apply num_head_start; exact Hc].
+    - apply andb_true_iff in H as [Hfin Hf]. cbn [print_value]. rewrite Hfin.
+      destruct (fok_spec f Hf) as (_ & f' & Hp & _).
+      destruct (parse_num_tok_head _ _ _ Hp) as (c & t & E & Hc).
+      exists c, t. split; [exact E | apply num_head_start; exact Hc].
+    - destruct b; eexists _, _; split; reflexivity.
+    - destruct kvs; eexists _, _; split; reflexivity.
+    - destruct vs; eexists _, _; split; reflexivity.
+    - eexists _, _; split; reflexivity.
+  Qed.
+
+  Lemma print_nonempty pretty ind v : jrep fok v = true -> (1 <= length (print_value ff ft pretty ind v))%nat.
+  Proof. intros H. destruct (print_head pretty ind v H) as (c & r & E & _). rewrite E. cbn. lia. Qed.
+
+  Lemma print_elems_nonempty pretty ind first l : (1 <= length (print_elems ff ft pretty ind first l))%nat.
+  Proof.
+    revert first. induction l as [|x l IH]; intros first; cbn [print_elems]; rewrite !app_length.
+    - cbn. lia.
+    - specialize (IH false). lia.
+  Qed.
+
+  Lemma print_members_nonempty pretty ind first l : (1 <= length (print_members ff ft pretty ind first l))%nat.
+  Proof.
+    destruct l as [|[k x] l]; cbn [print_members]; rewrite !app_length.
+    - cbn. lia.
+    - unfold print_string. cbn [length]. lia.
+  Qed.
+
+  (* what follows an element or a member value never continues a number *)
+  Lemma num_end_elems pretty ind l rest : num_end (print_elems ff ft pretty ind false l ++ rest) = true.
+  Proof. destruct l as [|x l], pretty; reflexivity. Qed.
+
+  Lemma num_end_members pretty ind l rest : num_end (print_members ff ft pretty ind false l ++ rest) = true.
+  Proof. destruct l as [|[k x] l], pretty; reflexivity. Qed.
+
+  Lemma skip_ws_sep_first pretty ind s c r :
+    s = c :: r -> is_ws c = false -> skip_ws (sep pretty true ind ++ s) = c :: r.
+  Proof.
+    intros -> Hc. destruct pretty; cbn [sep app].
+    - cbn [skip_ws is_ws N.eqb Pos.eqb orb]. rewrite skip_ws_indent. apply skip_ws_start. exact Hc.
+    - apply skip_ws_start. exact Hc.
+  Qed.
+
+  Lemma skip_ws_sep_next pretty ind s c r :
+    s = c :: r -> is_ws c = false ->
+    exists w, sep pretty false ind ++ s = 44 :: w /\ skip_ws w = c :: r.
+  Proof.
+    intros -> Hc. destruct pretty; cbn [sep app].
+    - eexists. split; [reflexivity|]. cbn [skip_ws is_ws N.eqb Pos.eqb orb]. rewrite skip_ws_indent.
+      apply skip_ws_start. exact Hc.
+    - eexists. split; [reflexivity|]. apply skip_ws_start. exact Hc.
+  Qed.
+
+  Lemma skip_ws_close pretty ind c r : is_ws c = false -> skip_ws (close pretty ind ++ c :: r) = c :: r.
+  Proof.
+    intros Hc. destruct pretty; cbn [close app].
+    - cbn [skip_ws is_ws N.eqb Pos.eqb orb]. rewrite skip_ws_indent. apply skip_ws_start. exact Hc.
+    - apply skip_ws_start. exact Hc.
+  Qed.
+
+  (* the statement proved for every value *)
+  Definition RT (v : value) : Prop :=
+    jrep fok v = true ->
+    forall pretty ind fuel depth rest,
+      (2 * length (print_value ff ft pretty ind v) <= fuel)%nat ->
+      vdepth v < depth -> num_end rest = true ->
+      exists v', parse_value fuel depth (print_value ff ft pretty ind v ++ rest) = Some (v', rest)
+                 /\ value_close v v' = true.
+
+  (* arrays, given the statement for the elements *)
+  Lemma elems_rt l : Forall RT l -> forallb (jrep fok) l = true ->
+    forall pretty ind first fuel depth rest,
+      (2 * length (print_elems ff ft pretty ind first l) <= fuel)%nat ->
+      depth_list l < depth ->
+      exists l', parse_elems fuel depth first (print_elems ff ft pretty ind first l ++ rest) = Some (l', rest)
+                 /\ list_close l l' = true.
+  Proof.
+    induction 1 as [|x l Hx Hl IH]; intros Hj pretty ind first fuel depth rest Hfuel Hdepth.
+    - cbn [print_elems] in *. rewrite app_length in Hfuel. cbn [length] in Hfuel.
+      destruct fuel as [|fuel]; [lia|].
+      exists []. split; [|reflexivity].
+      cbn [parse_elems]. rewrite <- app_assoc. cbn [app].
+      rewrite skip_ws_close by reflexivity. reflexivity.
+    - cbn [forallb] in Hj. apply andb_true_iff in Hj as [Hjx Hjl].
+      cbn [depth_list fold_right] in Hdepth. fold (depth_list l) in Hdepth.
+      cbn [print_elems] in *. rewrite !app_length in Hfuel.
+      pose proof (print_nonempty pretty (S ind) x Hjx) as Hnx.
+      pose proof (print_elems_nonempty pretty ind false l) as Hnl.
+      destruct (print_head pretty (S ind) x Hjx) as (c & r & Ehead & Hstart).
+      destruct (is_start_facts c Hstart) as (Hws & H93 & _ & _ & _ & _).
+      destruct fuel as [|fuel]; [lia|].
+      (* the element *)
+      destruct (Hx Hjx pretty (S ind) fuel depth (print_elems ff ft pretty ind false l ++ rest))
+        as (x' & Hpx & Hcx); [lia | lia | apply num_end_elems |].
+      (* the remaining elements *)
+      destruct (IH Hjl pretty ind false fuel depth rest) as (l' & Hpl & Hcl); [lia | lia |].
+      exists (x' :: l'). split; [|cbn [list_close]; rewrite Hcx, Hcl; reflexivity].
+      rewrite <- !app_assoc.
+      set (tail := print_value ff ft pretty (S ind) x ++ print_elems ff ft pretty ind false l ++ rest) in *.
+      assert (Etail : tail = c :: (r ++ print_elems ff ft pretty ind false l ++ rest)).
+      { unfold tail. rewrite Ehead. reflexivity. }
+      destruct first.
+      + cbn [parse_elems]. rewrite (skip_ws_sep_first pretty (S ind) tail c _ Etail Hws).
+        rewrite H93. rewrite <- Etail. rewrite Hpx, Hpl. reflexivity.
+      + destruct (skip_ws_sep_next pretty (S ind) tail c _ Etail Hws) as (w & Ew & Hw).
+        cbn [parse_elems]. rewrite Ew. cbn [skip_ws is_ws N.eqb Pos.eqb orb]. cbv iota.
+        change (44 =? 93) with false. change (44 =? 44) with true. cbv iota.
+        rewrite Hw, H93. rewrite <- Etail. rewrite Hpx, Hpl. reflexivity.
+  Qed.
+
+  (* objects *)
+  Lemma members_rt l : Forall (fun kv => RT (snd kv)) l -> jrep_pairs fok l = true ->
+    forall pretty ind first fuel depth rest,
+      (2 * length (print_members ff ft pretty ind first l) <= fuel)%nat ->
+      depth_pairs l < depth ->
+      exists l', parse_members fuel depth first (print_members ff ft pretty ind first l ++ rest) = Some (l', rest)
+                 /\ pairs_close l l' = true.
+  Proof.
+    induction 1 as [|[k x] l Hx Hl IH]; intros Hj pretty ind first fuel depth rest Hfuel Hdepth.
+    - cbn [print_members] in *. rewrite app_length in Hfuel. cbn [length] in Hfuel.
+      destruct fuel as [|fuel]; [lia|].
+      exists []. split; [|reflexivity].
+      cbn [parse_members]. rewrite <- app_assoc. cbn [app].
+      rewrite skip_ws_close by reflexivity. reflexivity.
+    - cbn [snd] in Hx. cbn [jrep_pairs] in Hj. fold (jrep_pairs fok) in Hj.
+      apply andb_true_iff in Hj as [Hj Hjl]. apply andb_true_iff in Hj as [Hk Hjx].
+      cbn [depth_pairs] in Hdepth. fold depth_pairs in Hdepth.
+      cbn [print_members] in *. fold (print_members ff ft pretty ind) in *.
+      rewrite !app_length in Hfuel.
+      pose proof (print_nonempty pretty (S ind) x Hjx) as Hnx.
+      pose proof (print_members_nonempty pretty ind false l) as Hnl.
+      destruct fuel as [|fuel]; [lia|].
+      destruct (Hx Hjx pretty (S ind) fuel depth (print_members ff ft pretty ind false l ++ rest))
+        as (x' & Hpx & Hcx); [unfold print_string in Hfuel; cbn [length] in Hfuel; lia | lia | apply num_end_members |].
+      destruct (IH Hjl pretty ind false fuel depth rest) as (l' & Hpl & Hcl);
+        [unfold print_string in Hfuel; cbn [length] in Hfuel; lia | lia |].
+      exists ((k, x') :: l'). split; [|cbn [pairs_close]; rewrite bytes_eqb_refl, Hcx, Hcl; reflexivity].
+      rewrite <- !app_assoc.
+      set (vtail := print_value ff ft pretty (S ind) x ++ print_members ff ft pretty ind false l ++ rest) in *.
+      (* after the key's opening quote *)
+      assert (Hmember :
+        match parse_string (escape_body k ++ 34 :: colon pretty ++ vtail) with
+        | Some (k0, r1) =>
+            match skip_ws r1 with
+            | 58 :: r2 =>
+                match parse_value fuel depth r2 with
+                | Some (x0, r3) =>
+                    match parse_members fuel depth false r3 with
+                    | Some (kvs, r4) => Some ((k0, x0) :: kvs, r4)
+                    | None => None
+                    end
+                | None => None
+                end
+            | _ => None
+            end
+        | None => None
+        end = Some ((k, x') :: l', rest)).
+      { rewrite parse_string_print.
+        destruct pretty; cbn [colon app skip_ws is_ws N.eqb Pos.eqb orb].
+        - rewrite parse_value_ws by reflexivity. rewrite Hpx, Hpl. reflexivity.
+        - rewrite Hpx, Hpl. reflexivity. }
+      assert (Ekey : print_string k ++ colon pretty ++ vtail = 34 :: (escape_body k ++ 34 :: colon pretty ++ vtail)).
+      { unfold print_string. cbn [app]. rewrite <- app_assoc. reflexivity. }
+      destruct first.
+      + cbn [parse_members].
+        rewrite (skip_ws_sep_first pretty (S ind) _ 34 _ Ekey eq_refl).
+        change (34 =? 125) with false. change (34 =? 34) with true. cbv iota. exact Hmember.
+      + destruct (skip_ws_sep_next pretty (S ind) _ 34 _ Ekey eq_refl) as (w & Ew & Hw).
+        cbn [parse_members]. rewrite Ew. cbn [skip_ws is_ws N.eqb Pos.eqb orb]. cbv iota.
+        change (44 =? 125) with false. change (44 =? 44) with true. cbv iota.
+        rewrite Hw. exact Hmember.
+  Qed.
+
+  Lemma leb_depth d n : 1 + n < d -> (d <=? 1) = false /\ n < d - 1.
+  Proof. intros H. split; [apply N.leb_gt; lia | lia]. Qed.
+
+  Theorem rt_all : forall v, RT v.
+  Proof.
+    induction v as [b|src|z|f|b|ns|kvs IHk|vs IHv|] using value_ind'; unfold RT;
+      intros Hj pretty ind fuel depth rest Hfuel Hdepth Hend; cbn [jrep] in Hj; try discriminate.
+    - (* string *)
+      cbn [print_value] in *. rewrite (lossy_id b Hj) in *.
+      unfold print_string in *. cbn [length] in Hfuel. destruct fuel as [|fuel]; [lia|].
+      exists (VBytes b). split; [|cbn [value_close value_eqb]; apply bytes_eqb_refl].
+      cbn [app]. rewrite parse_value_str. rewrite <- app_assoc. cbn [app].
+      rewrite parse_string_print. reflexivity.
+    - (* integer *)
+      cbn [print_value] in *.
+      destruct (print_int_head z) as (c & r & E & Hc).
+      assert (Hlen : (1 <= length (print_int z))%nat) by (rewrite E; cbn; lia).
+      destruct fuel as [|fuel]; [lia|].
+      exists (VInt z). split; [|cbn [value_close value_eqb]; apply Z.eqb_refl].
+      pose proof (parse_num_tok_print_int z rest Hj Hend) as Hp.
+      rewrite E in *. cbn [app] in *. rewrite parse_value_num by exact Hc.
+      destruct Hp as [Hp|[Hp Hz]]; rewrite Hp; [reflexivity|].
+      rewrite (value_of_pnum_int z (PU64 (Z.to_N z)) Hj); [reflexivity|].
+      right; split; [reflexivity | exact Hz].
+    - (* float *)
+      apply andb_true_iff in Hj as [Hfin Hf]. cbn [print_value] in *. rewrite Hfin in *.
+      destruct (fok_spec f Hf) as (_ & f' & Hp & Hclose).
+      destruct (parse_num_tok_head _ _ _ Hp) as (c & t & E & Hc).
+      assert (Hlen : (1 <= length (ff f))%nat) by (rewrite E; cbn; lia).
+      destruct fuel as [|fuel]; [lia|].
+      exists (VFloat f'). split; [|exact Hclose].
+      pose proof (parse_num_tok_local _ _ rest Hp Hend) as Hl.
+      rewrite E in *. cbn [app] in *. rewrite parse_value_num by exact Hc. rewrite Hl. reflexivity.
+    - (* boolean *)
+      destruct b; cbn [print_value] in *; cbn [length t_true t_false] in Hfuel;
+        (destruct fuel as [|fuel]; [lia|]); eexists; (split; [reflexivity | reflexivity]).
+    - (* object *)
+      change (keys_sorted kvs && jrep_pairs fok kvs = true) in Hj. apply andb_true_iff in Hj as [Hsorted Hjp].
+      rewrite vdepth_obj_eq in Hdepth. destruct (leb_depth _ _ Hdepth) as [Hd1 Hd2].
+      destruct kvs as [|kv kvs].
+      + cbn [print_value length] in *. destruct fuel as [|[|fuel]]; try lia.
+        exists (VObj []). split; [|reflexivity].
+        cbn [app]. rewrite parse_value_obj, Hd1. reflexivity.
+      + rewrite print_obj_eq in *. cbn [length] in Hfuel. destruct fuel as [|fuel]; [lia|].
+        destruct (members_rt (kv :: kvs) IHk Hjp pretty ind true fuel (depth - 1) rest) as (l' & Hp & Hc);
+          [lia | exact Hd2 |].
+        exists (VObj l'). split; [|rewrite close_obj_eq; exact Hc].
+        cbn [app]. rewrite parse_value_obj, Hd1, Hp. f_equal. f_equal. f_equal.
+        apply obj_of_list_sorted. rewrite <- (keys_sorted_same_keys _ _ (pairs_close_keys _ _ Hc)). exact Hsorted.
+    - (* array *)
+      rewrite vdepth_arr_eq in Hdepth. destruct (leb_depth _ _ Hdepth) as [Hd1 Hd2].
+      destruct vs as [|x vs].
+      + cbn [print_value length] in *. destruct fuel as [|[|fuel]]; try lia.
+        exists (VArr []). split; [|reflexivity].
+        cbn [app]. rewrite parse_value_arr, Hd1. reflexivity.
+      + rewrite print_arr_eq in *. cbn [length] in Hfuel. destruct fuel as [|fuel]; [lia|].
+        destruct (elems_rt (x :: vs) IHv Hj pretty ind true fuel (depth - 1) rest) as (l' & Hp & Hc);
+          [lia | exact Hd2 |].
+        exists (VArr l'). split; [|rewrite close_arr_eq; exact Hc].
+        cbn [app]. rewrite parse_value_arr, Hd1, Hp. reflexivity.
+    - (* null *)
+      cbn [print_value length t_null] in *. destruct fuel as [|fuel]; [lia|].
+      eexists; split; reflexivity.
+  Qed.
+End RoundTrip.
